@@ -39,6 +39,8 @@ var (
 	tlsOnce   sync.Once
 	tlsServer *tls.Config
 	tlsRoots  *x509.CertPool
+	tlsCA     *x509.Certificate // the rig's certificate: origin leaf and, for end-to-end cases, interception CA
+	tlsCAKey  *ecdsa.PrivateKey
 )
 
 func tlsSetup() {
@@ -58,6 +60,7 @@ func tlsSetup() {
 			panic(err)
 		}
 		cert, _ := x509.ParseCertificate(der)
+		tlsCA, tlsCAKey = cert, key
 		tlsRoots = x509.NewCertPool()
 		tlsRoots.AddCert(cert)
 		tlsServer = &tls.Config{
@@ -87,6 +90,57 @@ type endpoint struct {
 	// reassembly of a header block being received
 	blk    []byte
 	blkSid uint32
+
+	// RFC 7540 6.10 judged by the read loop on the order of arrival: while a header block is open
+	// (HEADERS / PUSH_PROMISE / CONTINUATION without END_HEADERS) the next frame on the connection
+	// must be a CONTINUATION of the same stream
+	wireOpen    bool
+	wireSid     uint32
+	wireBad     []string
+	wireBadBy   map[string]int // violations by kind of the offending frame (not capped)
+	recordWire  bool
+	arrival     []string
+	onBlockOpen func()        // called (once set) when a header block begins to arrive
+	slowBlock   time.Duration // a slow receiver: the read loop pauses this long after each frame of a header block
+}
+
+// wireCheck is called by the read loop with e.mu held.
+func (e *endpoint) wireCheck(g *Frame) {
+	n := len(e.arrival)
+	if e.recordWire && n < 60000 {
+		e.arrival = append(e.arrival, g.Tag())
+	}
+	bad := func(msg string) {
+		if e.wireBadBy == nil {
+			e.wireBadBy = map[string]int{}
+		}
+		e.wireBadBy[string(g.T)]++
+		if len(e.wireBad) < 5 {
+			e.wireBad = append(e.wireBad, fmt.Sprintf("%s: arrival %d: %s", e.side, n, msg))
+		}
+	}
+	if e.wireOpen {
+		if g.T == 'C' && g.Sid == e.wireSid {
+			e.wireOpen = !g.EH
+			return
+		}
+		bad(fmt.Sprintf("%s inside the header block of stream %d", g.Tag(), e.wireSid))
+		if g.T != 'H' && g.T != 'P' {
+			return // the block is still to be completed
+		}
+		e.wireOpen = false
+	} else if g.T == 'C' {
+		bad(fmt.Sprintf("%s with no header block open", g.Tag()))
+		return
+	}
+	if (g.T == 'H' || g.T == 'P') && !g.EH {
+		e.wireOpen, e.wireSid = true, g.Sid
+		if e.onBlockOpen != nil {
+			f := e.onBlockOpen
+			e.onBlockOpen = nil
+			f()
+		}
+	}
 }
 
 func newEndpoint(side string, conn net.Conn) *endpoint {
@@ -153,9 +207,17 @@ func (e *endpoint) readLoop() {
 			g = Frame{T: 'U', Typ: uint8(f.Header().Type)}
 		}
 		e.mu.Lock()
+		e.wireCheck(&g)
 		e.inbox = append(e.inbox, g)
 		e.cond.Broadcast()
+		pause := time.Duration(0)
+		if e.wireOpen {
+			pause = e.slowBlock
+		}
 		e.mu.Unlock()
+		if pause > 0 {
+			time.Sleep(pause)
+		}
 	}
 }
 
@@ -240,6 +302,7 @@ type Runner struct {
 	ackedMax map[string]uint32 // the other side's MAX_FRAME_SIZE when this side last acknowledged SETTINGS
 	inBlock  string            // side that is in the middle of a header block
 	timeout  time.Duration
+	e2e      *e2eProxy // the intercepting proxy in front of the relay (end-to-end cases)
 }
 
 func canonList(fs []hpack.HeaderField) string {
@@ -268,7 +331,15 @@ func (r *Runner) listID(fs []hpack.HeaderField) int {
 }
 
 // NewRunner starts a relay between a pipe (client side) and a TLS listener (server side).
-func NewRunner() (*Runner, error) {
+func NewRunner() (*Runner, error) { return NewRunnerFor(Params{}) }
+
+func newRunnerShell(ln net.Listener) *Runner {
+	return &Runner{timeout: defaultStepTimeout, maxAdv: map[string]uint32{"c": 16384, "s": 16384}, ackedMax: map[string]uint32{"c": 16384, "s": 16384}, lists: map[string]int{}, res: &Result{Stats: map[string]int{}}, closing: make(chan bool), proxyErr: make(chan error, 1), ln: ln}
+}
+
+// NewRunnerFor starts the relay the way the case asks for: h2.Config.Proxy between a pipe and a TLS
+// listener, or (Params.E2E) behind a martian.Proxy that intercepts a CONNECT tunnel.
+func NewRunnerFor(p Params) (*Runner, error) {
 	tlsSetup()
 	ln, err := tls.Listen("tcp", "127.0.0.1:0", tlsServer)
 	if err != nil {
@@ -276,8 +347,7 @@ func NewRunner() (*Runner, error) {
 	}
 	theRelayLog.take()
 	stepTimeout := defaultStepTimeout
-	r := &Runner{timeout: stepTimeout, maxAdv: map[string]uint32{"c": 16384, "s": 16384}, ackedMax: map[string]uint32{"c": 16384, "s": 16384}, lists: map[string]int{}, res: &Result{Stats: map[string]int{}}, closing: make(chan bool), proxyErr: make(chan error, 1), ln: ln}
-	cHarness, cRelay := net.Pipe()
+	r := newRunnerShell(ln)
 	type acc struct {
 		c   net.Conn
 		err error
@@ -290,43 +360,69 @@ func NewRunner() (*Runner, error) {
 		}
 		accCh <- acc{c, err}
 	}()
-	cfg := &h2.Config{RootCAs: tlsRoots}
-	u := &url.URL{Scheme: "https", Host: ln.Addr().String()}
-	go func() { r.proxyErr <- cfg.Proxy(r.closing, cRelay, u) }()
+	var cHarness net.Conn
+	if p.E2E != nil {
+		cHarness, err = r.startE2E(p.E2E, ln.Addr().String())
+		if err != nil {
+			ln.Close()
+			return nil, err
+		}
+	} else {
+		var cRelay net.Conn
+		cHarness, cRelay = net.Pipe()
+		cfg := &h2.Config{RootCAs: tlsRoots}
+		u := &url.URL{Scheme: "https", Host: ln.Addr().String()}
+		go func() { r.proxyErr <- cfg.Proxy(r.closing, cRelay, u) }()
+	}
 
 	// the client preface goes first; Proxy reads it with one Read call
 	cHarness.SetWriteDeadline(time.Now().Add(stepTimeout))
 	if _, err := cHarness.Write([]byte(http2.ClientPreface)); err != nil {
-		ln.Close()
+		r.abort(cHarness)
 		return nil, fmt.Errorf("writing preface: %w", err)
 	}
 	var sconn net.Conn
 	select {
 	case a := <-accCh:
 		if a.err != nil {
-			ln.Close()
+			r.abort(cHarness)
 			return nil, fmt.Errorf("accept: %w", a.err)
 		}
 		sconn = a.c
 	case err := <-r.proxyErr:
-		ln.Close()
+		r.abort(cHarness)
 		return nil, fmt.Errorf("Proxy returned early: %v", err)
 	case <-time.After(stepTimeout):
-		ln.Close()
+		r.abort(cHarness)
 		return nil, errors.New("relay did not connect")
 	}
 	pre := make([]byte, len(http2.ClientPreface))
 	sconn.SetReadDeadline(time.Now().Add(stepTimeout))
 	if _, err := io.ReadFull(sconn, pre); err != nil || string(pre) != http2.ClientPreface {
-		ln.Close()
+		sconn.Close()
+		r.abort(cHarness)
 		return nil, fmt.Errorf("preface not forwarded: %v %q", err, pre)
 	}
 	sconn.SetReadDeadline(time.Time{})
 	r.c, r.s = newEndpoint("c", cHarness), newEndpoint("s", sconn)
+	if p.E2E != nil || p.Conc > 0 {
+		r.c.recordWire, r.s.recordWire = true, true
+	}
 	r.cs, r.sc = newDirState(), newDirState()
 	go r.c.readLoop()
 	go r.s.readLoop()
 	return r, nil
+}
+
+// abort gives up a relay that did not come up.
+func (r *Runner) abort(c net.Conn) {
+	if c != nil {
+		c.Close()
+	}
+	r.ln.Close()
+	if r.e2e != nil {
+		r.e2e.stop()
+	}
 }
 
 func (r *Runner) ep(side string) (self, other *endpoint, out, in *dirState, bsidSelf, bsidOther uint32) {
@@ -376,9 +472,15 @@ func hpackFields(fs []Field) []hpack.HeaderField {
 
 // write sends the wire frame of op from its side and fills in the realised fields.
 func (r *Runner) write(op *Op) error {
-	self, _, out, in, _, _ := r.ep(op.Side)
+	self, _, _, _, _, _ := r.ep(op.Side)
 	self.conn.SetWriteDeadline(time.Now().Add(r.timeout))
-	fr := self.fr
+	return r.writeTo(self.fr, op)
+}
+
+// writeTo renders the wire frame of op with fr (the endpoint's Framer, or one that writes into a
+// buffer: a burst is prepared in full before any of it is written).
+func (r *Runner) writeTo(fr *http2.Framer, op *Op) error {
+	self, _, out, in, _, _ := r.ep(op.Side)
 	op.EH, op.FragLen, op.ReencLen, op.ListID = false, 0, 0, 0
 	switch op.Kind {
 	case "data":
@@ -593,6 +695,14 @@ func (r *Runner) Do(op Op) bool {
 	if r.stopped {
 		return false
 	}
+	if op.Kind == "sleep" {
+		time.Sleep(time.Duration(op.Ms) * time.Millisecond)
+		r.res.Ops = append(r.res.Ops, op)
+		return true
+	}
+	if op.Kind == "burst" {
+		return r.doBurst(op)
+	}
 	if r.inBlock != "" && (op.Side != r.inBlock || op.Kind != "cont") {
 		// a schedule must finish a header block before anything else is written (see below)
 		r.res.Hung = "rig: schedule interleaves " + op.Kind + " with an unfinished header block"
@@ -697,17 +807,37 @@ func (r *Runner) Close() *Result {
 			}
 		}
 	}
+	for _, e := range []*endpoint{r.c, r.s} {
+		e.mu.Lock()
+		r.res.WireBad = append(r.res.WireBad, e.wireBad...)
+		for k, n := range e.wireBadBy {
+			r.res.Stats["wire-violation-by-"+k+"-at-"+e.side] += n
+		}
+		if e.recordWire {
+			if r.res.Arrival == nil {
+				r.res.Arrival = map[string][]string{}
+			}
+			r.res.Arrival[e.side] = e.arrival
+		}
+		e.mu.Unlock()
+	}
 	close(r.closing)
 	r.c.conn.Close()
 	r.s.conn.Close()
 	r.ln.Close()
-	select {
-	case err := <-r.proxyErr:
-		if err != nil {
-			r.res.ProxyErr = err.Error()
+	if r.e2e != nil {
+		if !r.e2e.stop() {
+			r.res.ExitSlow = true
 		}
-	case <-time.After(3 * time.Second):
-		r.res.ExitSlow = true
+	} else {
+		select {
+		case err := <-r.proxyErr:
+			if err != nil {
+				r.res.ProxyErr = err.Error()
+			}
+		case <-time.After(3 * time.Second):
+			r.res.ExitSlow = true
+		}
 	}
 	sort.Strings(r.res.Late)
 	r.res.RelayLog = theRelayLog.take()
